@@ -111,6 +111,15 @@ def faults(ctx, res, stats):
             fl.append(("unconvertible:int64 2**53+1 into a float column", d, None))
             d = df.copy(); d["geburtsjahr"] = np.array([2**63 + year] * n, dtype="uint64")
             fl.append(("unconvertible:uint64 beyond int64 into an int column", d, None))
+            # identifiers stored as uint64 with one value beyond the int64 range (e.g. hashed ids): wraps to a negative id if cast blindly
+            d = df.copy(); pid = d["p_id"].to_numpy().astype("uint64"); pid[i] = np.uint64(2**63 + 5); d["p_id"] = pid
+            fl.append((f"unconvertible:p_id uint64 2**63+5:row {i}", d, None))
+            if multi:
+                h = rnd.choice(multi)
+                d = df.copy(); hh = d["hh_id"].to_numpy().astype("uint64"); hh[(df["hh_id"] == h).to_numpy()] = np.uint64(2**63 + 7); d["hh_id"] = hh
+                fl.append((f"unconvertible:hh_id uint64 2**63+7:household {h}", d, None))
+            d = df.copy(); al = d["alter"].to_numpy().astype("uint64"); al[i] = np.uint64(2**64 - 30); d["alter"] = al
+            fl.append((f"unconvertible:alter uint64 2**64-30:row {i}", d, None))
             for what, d, tg in fl:
                 expect_reject(d, date, what, res, stats, targets=tg)
             # pairs of faults: adding a second fault never turns a rejection into acceptance
